@@ -102,7 +102,7 @@ ObsApply(o, e) ==
   CASE e.e = "Create"   -> ObsCreate(o, e.sp, e.pw, e.sch, e.res)
     [] e.e = "SetPw"    -> ObsSetPw(o, e.sp, e.pw, e.res)
     [] e.e = "Delete"   -> ObsDelete(o, e.sp, e.res)
-    [] e.e = "Auth"     -> ObsAuth(o, cfg.map, e.sp, e.pw, e.az, e.ok)
+    [] e.e = "Auth"     -> ObsAuth(o, cfg.map, e.sp, e.pw, e.az, e.ok, e.id)
     [] e.e = "AuthPair" -> ObsPair(o, cfg.map, e.sp, e.pw, e.pok, e.pid, e.lok, e.lid)
     [] e.e = "AuthDirect" -> ObsDirect(o, e.sp, e.pw, e.ok)
     [] e.e = "SOpen"    -> ObsSOpen(o)
